@@ -216,9 +216,33 @@ class _Interrupt:
                     raise KeyboardInterrupt("injected interrupt inside solver loop")
             return me.orig(self_, im)
         darsia.Jacobi._neighbor_accumulation = wrapped
+        # second hook: the inner linear solve of the distance objects (class level, all objects)
+        import darsia.measure.wasserstein as wm
+        if not hasattr(wm.VariationalWassersteinDistance, "linear_solve"):
+            raise HarnessError("seam missing: VariationalWassersteinDistance.linear_solve")
+        self.orig_ls = wm.VariationalWassersteinDistance.linear_solve
+        self.where = "jacobi"
 
-    def arm(self, n):
-        self.count, self.at, self.fired = 0, n, False
+        def wrapped_ls(self_, *a, **k):
+            if me.at is not None and me.where == "w1":
+                i = me.count
+                me.count += 1
+                if i == me.at:
+                    me.fired = True
+                    me.at = None
+                    raise KeyboardInterrupt("injected interrupt inside the distance computation")
+            return me.orig_ls(self_, *a, **k)
+        wm.VariationalWassersteinDistance.linear_solve = wrapped_ls
+        orig_na = wrapped
+
+        def gated(self_, im):
+            if me.where != "jacobi":
+                return me.orig(self_, im)
+            return orig_na(self_, im)
+        darsia.Jacobi._neighbor_accumulation = gated
+
+    def arm(self, n, where="jacobi"):
+        self.count, self.at, self.fired, self.where = 0, n, False, where
 
     def disarm(self):
         self.at = None
@@ -271,7 +295,7 @@ def child_history(case, schedule, with_faults=True):
                     apply_env(e, clock)
             for f in case.get("faults", []):
                 if f["step"] == step:
-                    intr.arm(f["occurrence"])
+                    intr.arm(f["occurrence"], "w1" if op["op"] == "W1" else "jacobi")
         try:
             r, exc = exec_op(op, objs), None
         except KeyboardInterrupt:
@@ -557,7 +581,7 @@ class C16Engine(Engine):
         order = [c for c, p in clients.items() for _ in p]
         sch.shuffle(order)
         faults = []
-        if "solver" in alphabet and cfg.random() < 0.2:
+        if ("solver" in alphabet or "w1" in alphabet) and cfg.random() < 0.25:
             faults.append({"step": fl.randint(0, len(order) - 1), "occurrence": fl.randint(0, 6), "kind": "solve-interrupt"})
         envp = []
         if cfg.random() < 0.5:
